@@ -114,10 +114,11 @@ def sampling_checks(ctx, predict, p, S, wit, label):
     ctx.check(bool((f[det1] == 1.0).all()) and bool((f[det0] == 0.0).all()), "row_with_probability_0_or_1_not_deterministic:" + label,
               p1_freq=f[det1][:5].tolist(), p0_freq=f[det0][:5].tolist(), wit=wit)
     again = np.asarray(predict(0))
-    again2 = np.asarray(predict(np.random.RandomState(0)))
+    r1, r2 = np.asarray(predict(np.random.RandomState(12345))), np.asarray(predict(np.random.RandomState(12345)))
     ctx.ev("reproducibility_checks", 2)
     ctx.check(bool(np.array_equal(first, again)), "same_seed_different_predictions:" + label, wit=wit)
-    ctx.check(bool(np.array_equal(first, again2)), "int_seed_and_equal_randomstate_differ:" + label, wit=wit)
+    # (how an int seed relates to a RandomState is not part of the property: only equal states must give equal answers)
+    ctx.check(bool(np.array_equal(r1, r2)), "equal_randomstates_give_different_predictions:" + label, wit=wit)
     for v, nm in ((0.0, "zero"), (1.0 - 2.0 ** -53, "almost_one")):
         out = np.asarray(predict(ExtremeRandomState(v)))
         ctx.ev("extreme_draw_checks")
